@@ -71,6 +71,9 @@ def _mk(name):
         "KdqTreeBatch": lambda: KdqTreeBatch(bootstrap_samples=8, count_ubound=2),
         "HDDDM": lambda: HDDDM(detect_batch=3, statistic="stdev", significance=0.5),
         "CDBD": lambda: CDBD(detect_batch=3, statistic="stdev", significance=0.5),
+        # detect_batch=1: the second half of every new reference is replayed as an internal proxy batch (counted like an update)
+        "HDDDM1": lambda: HDDDM(detect_batch=1, statistic="stdev", significance=0.5),
+        "CDBD1": lambda: CDBD(detect_batch=1, statistic="tstat", significance=0.2),
         "NNDVI": lambda: NNDVI(k_nn=2, sampling_times=8, alpha=0.2),
     }[name]()
 
@@ -81,6 +84,7 @@ DETECTORS = {  # name -> (kind, univariate, needs set_reference, admissible incr
     "DDM(y)": ("stream", True, False, [1]), "STEPD(y)": ("stream", True, False, [1]),
     "BareBatch": ("batch", False, True, [1]), "KdqTreeBatch": ("batch", False, True, [1]),
     "HDDDM": ("batch", False, True, [1]), "CDBD": ("batch", True, True, [1]), "NNDVI": ("batch", False, True, [1]),
+    "HDDDM1": ("batch", False, True, [1, 2]), "CDBD1": ("batch", True, True, [1, 2]),
 }
 
 NAMES = {1: ["a"], 2: ["a", "b"], 3: ["a", "b", "c"]}
@@ -210,7 +214,7 @@ def run(name, calls, seed):
         total = getattr(det, "total_samples", None)
         if total is None:
             total = det.total_batches
-        ev.append({"op": op, "inp": inp, "variant": variant, "raised": raised, "total": int(total),
+        ev.append({"op": op, "inp": inp, "variant": variant, "raised": raised, "total": int(total), "drift": det.drift_state == "drift",
                    "out": digest(det), "tout": tout if raised == "None" or tout.startswith("twin") else "-"})
     return {"cfg": {"kind": kind, "univ": univ, "incs": incs}, "ev": ev, "name": name, "seed": seed,
             "calls": [[op, inp, v] for op, inp, v in calls]}
